@@ -32,6 +32,65 @@ pub enum Kind {
 pub struct Def {
     pub name: String,
     pub kind: Kind,
+    /// the attribute lines written above the item (empty = the plain single derive of the program)
+    pub attrs: Vec<String>,
+}
+
+/// what `derive.rs::parse_derive_targets` + `find_derive_attr` are documented to do, written independently:
+/// a trait is derived iff SOME attribute of the item is `#[derive(…)]` with a non-empty target list that names it
+pub fn spec_derives(attrs: &[String], tr: &str) -> bool {
+    attrs.iter().any(|a| {
+        let t = a.trim();
+        let Some(inner) = t.strip_prefix("#[").and_then(|x| x.strip_suffix(']')) else { return false };
+        let Some(rest) = inner.trim().strip_prefix("derive") else { return false };
+        let Some(list) = rest.trim_start().strip_prefix('(').and_then(|x| x.strip_suffix(')')) else { return false };
+        list.split(',').map(|x| x.trim()).any(|x| x == tr)
+    })
+}
+
+/// a random way of writing attributes whose known targets are exactly (json, string)
+pub fn spell_attrs(rng: &mut Rng, json: bool, string: bool) -> Vec<String> {
+    let noise_attr = ["#[inline]", "#[allow(dead_code)]", "#[foo]", "#[derive()]", "#[derive(Debug)]", "#[derive(Clone, Eq)]", "#![derive(ToJson)]", "#[doc = \"x\"]", "#[derived(ToJson)]", "#[derive]"];
+    let mut units: Vec<Vec<&str>> = Vec::new(); // each = the targets of one derive attribute
+    let known: Vec<&str> = [("ToJson", json), ("ToString", string)].iter().filter(|x| x.1).map(|x| x.0).collect();
+    match rng.below(5) {
+        0 => units.push(known.clone()),                                   // one attribute, every target
+        1 => { let mut k = known.clone(); k.reverse(); units.push(k) }    // … in the other order
+        2 => for k in &known { units.push(vec![*k]) },                    // one attribute per target
+        3 => { for k in known.iter().rev() { units.push(vec![*k]) } }      // … in the other order
+        _ => { for k in &known { units.push(vec![*k]) } units.push(known.clone()); } // duplicates across attributes
+    }
+    if rng.chance(1, 3) && !units.is_empty() {
+        let k = rng.below(units.len());
+        let dup = units[k].clone();
+        units.insert(rng.below(units.len() + 1), dup); // the same attribute twice
+    }
+    let mut out: Vec<String> = Vec::new();
+    for u in units {
+        let mut ts: Vec<String> = u.iter().map(|x| x.to_string()).collect();
+        // unknown targets mixed in
+        if rng.chance(1, 3) {
+            ts.insert(rng.below(ts.len() + 1), rng.pick(&["Debug", "Clone", "Tojson", "to_json", "ToJSON"]).to_string());
+        }
+        if rng.chance(1, 6) && !ts.is_empty() {
+            let d = ts[0].clone();
+            ts.push(d); // the same target twice in one attribute
+        }
+        let text = match rng.below(4) {
+            0 => format!("#[derive({})]", ts.join(", ")),
+            1 => format!("#[derive({})]", ts.join(",")),
+            2 => format!("#[ derive ( {} ) ]", ts.join(" , ")),
+            _ => format!("#[derive({},)]", ts.join(", ")),
+        };
+        out.push(text);
+    }
+    // non-derive / unknown attributes before, between and after
+    for _ in 0..rng.below(3) {
+        let pos = rng.below(out.len() + 1);
+        out.insert(pos, rng.pick(&noise_attr).to_string());
+    }
+    debug_assert!(spec_derives(&out, "ToJson") == json && spec_derives(&out, "ToString") == string);
+    out
 }
 
 #[derive(Clone, Debug)]
@@ -161,7 +220,7 @@ pub fn gen_defs(rng: &mut Rng, cfg: &Cfg) -> Vec<Def> {
                 let payload = (0..np).map(|_| gen_ft(rng, cfg, if base { &[] } else { &named }, unit_ok)).collect();
                 vs.push((vn, payload));
             }
-            defs.push(Def { name: names[i].clone(), kind: Kind::Enum(vs) });
+            defs.push(Def { name: names[i].clone(), kind: Kind::Enum(vs), attrs: Vec::new() });
         } else {
             let nf = rng.below(5);
             let mut fs: Vec<(String, FT)> = Vec::new();
@@ -188,7 +247,7 @@ pub fn gen_defs(rng: &mut Rng, cfg: &Cfg) -> Vec<Def> {
                     fs[k] = ("bool_to_json".into(), FT::Bool);
                 }
             }
-            defs.push(Def { name: names[i].clone(), kind: Kind::Struct(fs) });
+            defs.push(Def { name: names[i].clone(), kind: Kind::Struct(fs), attrs: Vec::new() });
         }
     }
     defs
@@ -356,7 +415,13 @@ pub fn program_src(rng: &mut Rng, cfg: &Cfg, defs: &[Def], vals: &[(usize, V)]) 
         _ => "#[derive(ToString)]",
     };
     for d in defs {
-        writeln!(src, "{}", attr).unwrap();
+        if d.attrs.is_empty() {
+            writeln!(src, "{}", attr).unwrap();
+        } else {
+            for a in &d.attrs {
+                writeln!(src, "{}", a).unwrap();
+            }
+        }
         match &d.kind {
             Kind::Struct(fs) => {
                 writeln!(src, "struct {} {{", d.name).unwrap();
@@ -453,7 +518,12 @@ pub fn case_sexp(cfg: &Cfg, defs: &[Def], vals: &[(usize, V)]) -> S {
     let vs: Vec<S> = vals.iter().map(|(i, v)| l(vec![a(&defs[*i].name), val_sexp(defs, v)])).collect();
     tagged(
         "case",
-        vec![tagged("derive", vec![a(if cfg.to_json { "json" } else { "nojson" }), a(if cfg.to_string { "string" } else { "nostring" })]), tagged("defs", ds), tagged("vals", vs)],
+        vec![
+            tagged("derive", vec![a(if cfg.to_json { "json" } else { "nojson" }), a(if cfg.to_string { "string" } else { "nostring" })]),
+            tagged("defs", ds),
+            tagged("vals", vs),
+            tagged("attrs", defs.iter().filter(|d| !d.attrs.is_empty()).map(|d| { let mut it = vec![a(&d.name)]; it.extend(d.attrs.iter().map(|x| S::A(x.clone()))); l(it) }).collect()),
+        ],
     )
 }
 
@@ -666,6 +736,51 @@ fn derived_impls(src: &str) -> Option<S> {
     Some(tagged("derived", impls))
 }
 
+/// the attribute surface, exhaustively over a catalogue: for every way of writing the attributes of an
+/// item (struct / enum) four probe programs call to_json / to_string on a value of it and on a value of
+/// an enclosing type that derives the same trait; each must be accepted iff the union of the known
+/// targets of the item's derive attributes contains the trait, and print the expected text
+pub fn attr_probe_cases() -> Vec<(String, String, bool, String, S)> {
+    let j = "#[derive(ToJson)]";
+    let t = "#[derive(ToString)]";
+    let catalogue: Vec<Vec<&str>> = vec![
+        vec![j], vec![t], vec!["#[derive(ToJson, ToString)]"], vec!["#[derive(ToString, ToJson)]"],
+        vec![j, t], vec![t, j], vec![j, j], vec![t, t], vec![j, t, j], vec![t, j, t], vec![t, t, j], vec![j, j, t],
+        vec!["#[derive(ToJson, ToString)]", j], vec![t, "#[derive(ToString, ToJson)]"],
+        vec!["#[foo]", j], vec![j, "#[foo]"], vec![t, "#[foo]", j], vec!["#[foo]", t, "#[bar(baz)]", j, "#[inline]"],
+        vec!["#[derive(Debug)]", j], vec![j, "#[derive(Debug)]"], vec!["#[derive(Debug)]", t, j], vec!["#[derive(Debug, ToJson)]"],
+        vec!["#[derive(ToJson, Debug)]"], vec!["#[derive(Debug, ToString)]", "#[derive(Clone, ToJson)]"], vec!["#[derive(Debug)]"],
+        vec!["#[derive()]"], vec!["#[derive()]", j], vec![t, "#[derive()]"], vec!["#[derive()]", "#[derive()]", t, j],
+        vec!["#[derive]", j], vec!["#[derive(tojson)]"], vec!["#[derive(ToJson ToString)]"], vec!["#[derive(ToJson,,ToString,)]"],
+        vec!["#[ derive ( ToString , ToJson ) ]"], vec!["#![derive(ToJson)]"], vec!["#![derive(ToJson)]", t], vec!["#[derived(ToJson)]", t],
+        vec!["#[derive(ToJson)(ToString)]"], vec!["#[derive[ToJson]]"], vec![],
+    ];
+    let mut v = Vec::new();
+    for (ci, attrs) in catalogue.iter().enumerate() {
+        let owned: Vec<String> = attrs.iter().map(|x| x.to_string()).collect();
+        for kind in ["struct", "enum"] {
+            let (item, value, vj, vs) = if kind == "struct" {
+                ("struct In {\n    s: string,\n    n: int32,\n}\n", "In { s: \"a\\\"b\", n: (-3) }", "{\"s\":\"a\\\"b\",\"n\":-3}".to_string(), "In { s: a\"b, n: -3 }".to_string())
+            } else {
+                ("enum In {\n    A,\n    B(int32, string),\n}\n", "In::B(7, \"q\")", "{\"tag\":\"B\",\"fields\":[7,\"q\"]}".to_string(), "In::B(7, q)".to_string())
+            };
+            for (tr, method, direct) in [("ToJson", "to_json", &vj), ("ToString", "to_string", &vs)] {
+                let has = spec_derives(&owned, tr);
+                let attr_text: String = attrs.iter().map(|a| format!("{}\n", a)).collect();
+                // (1) the method on a value of the item
+                let src = format!("{}{}\nfn main() -> unit {{\n    let v = {};\n    string_println(v.{}())\n}}\n", attr_text, item, value, method);
+                let probe = tagged("attrprobe", owned.iter().map(|x| S::A(x.clone())).collect());
+                v.push((format!("attr:{}:{}:{}:direct", ci, kind, method), src, has, format!("{}\n", direct), probe.clone()));
+                // (2) the method of an enclosing derived type, whose generated body calls the item's
+                let outer = if tr == "ToJson" { format!("{{\"i\":{},\"k\":1}}", vj) } else { format!("Out {{ i: {}, k: 1 }}", vs) };
+                let src = format!("{}{}\n#[derive({})]\nstruct Out {{\n    i: In,\n    k: int32,\n}}\n\nfn main() -> unit {{\n    let v = Out {{ i: {}, k: 1 }};\n    string_println(v.{}())\n}}\n", attr_text, item, tr, value, method);
+                v.push((format!("attr:{}:{}:{}:nested", ci, kind, method), src, has, format!("{}\n", outer), probe));
+            }
+        }
+    }
+    v
+}
+
 fn emit(id: &str, dir: &std::path::Path, src: &str, out: &mut String) {
     writeln!(out, "{}\tSRC\t{}", id, esc_line(src)).unwrap();
     match util::compile_text(dir, src) {
@@ -718,13 +833,15 @@ pub fn main(args: &util::Args) {
     let total = args.n.unwrap_or(if args.tier == "thorough" { 2500 } else { 260 });
     let mut hist = vec![0usize; CLASSES.len()];
     let mut ft_hist: std::collections::BTreeMap<String, usize> = Default::default();
+    let mut attr_hist: std::collections::BTreeMap<&'static str, usize> = Default::default();
     let mut name_hist: std::collections::BTreeMap<String, usize> = Default::default();
     for i in 0..total {
         let mut root = Rng::new(args.seed);
         let mut rng = root.fork(i as u64 ^ 0xC18);
         // streams: features that used to fail (or still do) are kept apart so that they cannot mask others
         let stream = match i % 20 {
-            0..=5 => "base",
+            5 => "attrs",
+            0..=4 => "base",
             6..=9 => "strings",
             10..=13 => "prims",
             14 | 15 => "capture",
@@ -741,7 +858,22 @@ pub fn main(args: &util::Args) {
             to_json: i % 7 != 5,
             to_string: i % 7 != 6,
         };
-        let defs = gen_defs(&mut rng, &cfg);
+        let mut defs = gen_defs(&mut rng, &cfg);
+        // the attribute surface: a quarter of the definitions everywhere, all of them in the `attrs` stream
+        let mut arng = rng.fork(0xA77);
+        for d in defs.iter_mut() {
+            if stream == "attrs" || arng.chance(1, 4) {
+                d.attrs = spell_attrs(&mut arng, cfg.to_json, cfg.to_string);
+                let derives = d.attrs.iter().filter(|a| a.contains("derive") && !a.starts_with("#!") && !a.contains("derived") && a.contains('(') && !a.contains("()")).count();
+                *attr_hist.entry(if derives >= 3 { "three-or-more-derive-attributes" } else if derives == 2 { "two-derive-attributes" } else { "one-derive-attribute" }).or_default() += 1;
+                if d.attrs.len() > derives {
+                    *attr_hist.entry("with-non-derive-or-empty-attribute").or_default() += 1;
+                }
+                if d.attrs.iter().any(|a| ["Debug", "Clone", "Tojson", "to_json", "ToJSON"].iter().any(|u| a.contains(u))) {
+                    *attr_hist.entry("with-unknown-target").or_default() += 1;
+                }
+            }
+        }
         let nvals = 1 + rng.below(4);
         let vals: Vec<(usize, V)> = (0..nvals)
             .map(|_| {
@@ -825,6 +957,14 @@ pub fn main(args: &util::Args) {
         let x = if bits == 32 { (x as f32) as f64 } else { x };
         writeln!(out, "flt:{}\tFLOAT\t(fmt {} {})\t{}", i, bits, x.to_bits(), go_g(x, bits)).unwrap();
     }
+    for (id, src, accept, want, probe) in attr_probe_cases() {
+        writeln!(out, "{}\tPROBE\t{}\t{}\t{}", id, if accept { "accept" } else { "reject" }, esc_line(&want), probe.to_text()).unwrap();
+        match derived_impls(&src) {
+            Some(sx) => writeln!(out, "{}\tDERIVED\t{}", id, sx.to_text()).unwrap(),
+            None => writeln!(out, "{}\tDERIVED\tnone", id).unwrap(),
+        }
+        emit(&id, &dir, &src, &mut out);
+    }
     for (k, (kind, src)) in reject_cases().into_iter().enumerate() {
         let id = format!("rej:{}:{}", k, kind);
         writeln!(out, "{}\tEXPECTREJECT\t{}", id, kind).unwrap();
@@ -832,10 +972,11 @@ pub fn main(args: &util::Args) {
     }
     writeln!(
         out,
-        "#FEATS\tstring-classes: {} | field-types: {} | special-field-names: {}",
+        "#FEATS\tstring-classes: {} | field-types: {} | special-field-names: {} | attribute-spellings: {}",
         CLASSES.iter().zip(&hist).map(|((k, _), v)| format!("{}={}", k, v)).collect::<Vec<_>>().join(" "),
         ft_hist.iter().map(|(k, v)| format!("{}={}", if k.is_empty() { "named" } else { k }, v)).collect::<Vec<_>>().join(" "),
-        name_hist.iter().map(|(k, v)| format!("{}={}", k, v)).collect::<Vec<_>>().join(" ")
+        name_hist.iter().map(|(k, v)| format!("{}={}", k, v)).collect::<Vec<_>>().join(" "),
+        attr_hist.iter().map(|(k, v)| format!("{}={}", k, v)).collect::<Vec<_>>().join(" ")
     )
     .unwrap();
     let _ = std::fs::remove_dir_all(&dir);
